@@ -42,7 +42,8 @@ def gen_opts(draw, noisy=None):
     return {"ns": ns, "prefix": draw(st.sampled_from(["xtce", "x", "foo-1", "XTCE", "a.b"])),
             "xsi": draw(st.booleans()), "omit_defaults": draw(st.booleans()), "single_list": draw(st.booleans()),
             "reverse_points": draw(st.booleans()), "empty_unitset": draw(st.booleans()),
-            "int_values": draw(st.booleans()), "noise": noise, "pretty": draw(st.booleans()),
+            "int_values": draw(st.booleans()), "false_as_0": draw(st.booleans()),
+            "type_signed": draw(st.sampled_from([None, None, "match", "true", "false", "opposite"])), "noise": noise, "pretty": draw(st.booleans()),
             "declaration": draw(st.booleans()), "base_after_entries": False}
 
 
